@@ -127,6 +127,7 @@ func runC13(c *Ctx) {
 	defer runC13RegistryLookupMatchesAdapter(c)
 	defer runC13NotFoundIsTheSentinel(c)
 	defer runC13ClassificationIgnoresParseErrors(c)
+	defer runC13RegistryLookupExact(c)
 	entry := entryBody(p)
 	outer := serveHTTP(p)
 	opT := p.MustNamed("operation")
@@ -822,5 +823,65 @@ func runC13ClassificationIgnoresParseErrors(c *Ctx) {
 	}
 	if n == 0 {
 		c.Bad("C13.11", "package", "classification-has-no-error-branch", token.NoPos, "no function classifies a request into a client protocol handler: shape changed")
+	}
+}
+
+// runC13RegistryLookupExact: C13.12 (seed C13m).  The decision 'no conversion needed' compares
+// NAMES: the client's codec / compression name with the names the service lists, by string
+// equality and set membership.  That is only meaningful if a name that resolves in the registry is
+// the registered name itself.  A lookup that normalises its argument first (cuts parameters,
+// trims, folds case) lets "json; charset=utf-8" resolve while every later comparison still sees
+// the raw string and misses: the request is converted (re-encoded, Content-Length dropped,
+// query rewritten) although the service accepts it as it is.  Normalising belongs where the name
+// is extracted from the header, so that one spelling is stored.  Structural: in every method of a
+// module map type keyed by string, an index into the receiver whose key derives from a string
+// parameter uses that parameter unchanged.
+func runC13RegistryLookupExact(c *Ctx) {
+	p := c.P
+	c.Rule("C13.12", "a name resolves in a codec/compression registry only as the registered spelling (lookups do not normalise their argument)", 1)
+	n := 0
+	for _, fn := range p.Funcs {
+		if !p.inScope(fn) || fn.Signature.Recv() == nil || len(fn.Params) < 2 {
+			continue
+		}
+		rt := fn.Signature.Recv().Type()
+		nt, ok := types.Unalias(rt).(*types.Named)
+		if !ok {
+			continue
+		}
+		mt, ok := nt.Underlying().(*types.Map)
+		if !ok {
+			continue
+		}
+		if bt, ok := mt.Key().Underlying().(*types.Basic); !ok || bt.Kind() != types.String {
+			continue
+		}
+		recv := fn.Params[0]
+		ForEachInstr(fn, func(in ssa.Instruction) {
+			lk, ok := in.(*ssa.Lookup)
+			if !ok || strip(lk.X) != ssa.Value(recv) {
+				return
+			}
+			var from *ssa.Parameter
+			for _, l := range Origins(lk.Index) {
+				if l.Kind == "param" {
+					if prm, ok := l.V.(*ssa.Parameter); ok && prm != recv {
+						if bt, ok := prm.Type().Underlying().(*types.Basic); ok && bt.Kind() == types.String {
+							from = prm
+						}
+					}
+				}
+			}
+			if from == nil {
+				return
+			}
+			n++
+			c.Check(strip(lk.Index) == ssa.Value(from), "C13.12", FuncName(fn), "lookup-key-is-the-argument", lk.Pos(),
+				"the registry is indexed with the caller's name as given",
+				"the registry is indexed with a value computed from the caller's name, not the name itself: a spelling that is not the registered one resolves, while the comparisons that decide pass-through and negotiation still see the raw string")
+		})
+	}
+	if n == 0 {
+		c.Bad("C13.12", "package", "lookup-key-is-the-argument", token.NoPos, "no registry lookup by a caller-supplied name found: shape changed")
 	}
 }
